@@ -176,7 +176,8 @@ package memberlist
 //@   ensures S-suspect [C01,C03,C06]: h && s.Incarnation >= old(r.Incarnation) && !t && old(r.State) == StateAlive && n != m.config.Name ==>
 //@                  m.nodeMap[n] == r && r.Incarnation == s.Incarnation && r.State == StateSuspect && has(m.nodeTimers, n) && $ev == old($ev)
 //@                  && $bq == snoc(old($bq), Bq(n, suspectMsg, s.Incarnation, n, s.From, 0))
-//@   at call newSuspicion: assert susp-params [C06]: from == s.From && max == m.config.SuspicionMaxTimeoutMult * min
+//@   at call suspicionTimeout: assert susp-from-config [C03,C06]: suspicionMult == m.config.SuspicionMult && interval == m.config.ProbeInterval     // the bound is the configured one, not scaled by the observer's own health
+//@   at call newSuspicion: assert susp-params [C03,C06]: from == s.From && max == m.config.SuspicionMaxTimeoutMult * min
 //@                  && (k == m.config.SuspicionMult - 2 || k == 0) && (k == 0 ==> m.config.SuspicionMult - 2 <= 0 || m.numNodes - 2 < m.config.SuspicionMult - 2)
 //@                  && (k != 0 ==> k == m.config.SuspicionMult - 2 && m.numNodes - 2 >= k)
 //@   ensures S-live [C07,C09]: forall x string :: live(m, x) == old(live(m, x))
@@ -859,12 +860,15 @@ package memberlist
 //@   at call (*Keyring).GetKeys: set $installed := res
 //@   at call decryptPayload: assert all-installed-keys [C14,C17]: keys == $installed
 
+//@ ghost $rdN int
 //@ func (*Memberlist).readRemoteState(m, bufConn, dec)
 //@   safety [C13,C09]
 //@   modular
 //@   requires ok: mlNet(m) && bufConn != nil && dec != nil
 //@   at make header.Nodes: assert cap-nodes [C13,C09]: 0 <= n && n <= maxPushStateNodes
 //@   at make header.UserStateLen: assert cap-user [C13,C09]: 0 < n && n <= maxPushStateBytes
+//@   at call io.ReadAtLeast: set $rdN := res0
+//@   ensures-internal user-state-read-in-full [C09,C12]: result3 == nil && header.UserStateLen > 0 ==> $rdN == header.UserStateLen     // a short read is an error, never a zero-padded state
 //@   ensures-internal whole-user-state [C09,C12]: result3 == nil ==> len(result2) == ite(header.UserStateLen > 0, header.UserStateLen, 0)    // a stream cut inside the user state is an error, never a shorter state
 
 // C12: a reliable user message is handed to the delegate complete, and reading it fails only if decoding the header
@@ -927,10 +931,16 @@ package memberlist
 //@   ensures label [C16]: result2 == nil && result1 != "" ==> len($peeked) == 2 + len(result1) && $peeked[0] == 244 && $peeked[1] == len(result1) && (forall i int :: 0 <= i && i < len(result1) ==> result1[i] == $peeked[2+i])
 
 // push/pull dispatch (C09 "hearsay never kills", C01): a remote entry becomes exactly the claim its state stands for
+//@ ghost $lastDisp int      // mergeState: index of the last remote entry that was turned into a claim
+//@ pure claimState(s NodeStateType) bool := s == StateAlive || s == StateSuspect || s == StateDead || s == StateLeft
 //@ func (*Memberlist).mergeState(m, remote)
-//@   safety [C13,C09]
+//@   safety [C13,C02,C09]
 //@   modular
 //@   requires ok: mlNet(m)
+//@   at call (*Memberlist).aliveNode: set $lastDisp := rangeindex + 1
+//@   at call (*Memberlist).deadNode: set $lastDisp := rangeindex + 1
+//@   at call (*Memberlist).suspectNode: set $lastDisp := rangeindex + 1
+//@   loop #1 invariant none-skipped [C02,C09]: rangeindex >= 0 && rangeindex < len(remote) && claimState(remote[rangeindex].State) ==> $lastDisp == rangeindex     // every entry with a known state is handed to aliveNode / suspectNode / deadNode, whatever the local view says
 //@   at call (*Memberlist).aliveNode: assert disp-alive [C01,C09]: r.State == StateAlive && a.Incarnation == r.Incarnation && a.Node == r.Name && a.Addr == r.Addr && a.Port == r.Port && a.Meta == r.Meta && a.Vsn == r.Vsn && notify == nil && !bootstrap
 //@   at call (*Memberlist).deadNode: assert disp-left [C08,C09]: r.State == StateLeft && d.Incarnation == r.Incarnation && d.Node == r.Name && d.From == r.Name
 //@   at call (*Memberlist).suspectNode: assert disp-hearsay [C09]: (r.State == StateDead || r.State == StateSuspect) && s.Incarnation == r.Incarnation && s.Node == r.Name && s.From == m.config.Name
@@ -1050,9 +1060,12 @@ package memberlist
 //@ ghost $probeSeq int
 // probeNode: the probe's own sequence number is the key that is registered and the one pinged; the health
 // score may only improve (delta -1) if the ping really left; the target is suspected by us, at the incarnation we probed
+//@ ghost $remaining int
 //@ func (*Memberlist).probeNode(m, node)
-//@   safety [C19,C20]
+//@   safety [C03,C19,C20]
 //@   requires ok: mlNet(m) && node != nil
+//@   at call time.Until: set $remaining := res
+//@   at call NodeAwareTransport.DialAddressTimeout: assert dial-within-deadline [C03,C19]: arg1 == $remaining     // the TCP fallback may use only what is left of the probe's own deadline
 //@   at call (*Memberlist).nextSeqNo: set $sendErr := 1
 //@   at call (*Memberlist).nextSeqNo: set $probeSeq := res
 //@   at call (*Memberlist).setProbeChannels: assert registers-own-seq [C19]: seqNo == $probeSeq && seqNo == ping.SeqNo
